@@ -1,7 +1,10 @@
 """C19 Container objects refine their Python prototypes under any operation history (DESIGN 4/C19)."""
 import random
 
+from pyasn1.codec.ber import encoder as ber_encoder
+from pyasn1.codec.cer import encoder as cer_encoder
 from pyasn1.codec.der import encoder as der_encoder
+from pyasn1.codec.native import encoder as native_encoder
 from pyasn1.type import char, namedtype, tag, univ, useful
 from pyasn1.type import base as asn1base
 from pyasn1 import error
@@ -18,6 +21,7 @@ TECHNIQUE = ('runtime monitoring against an executable reference model: random o
              'container object and to a plain list / dict / pair model; after every step all observables (isValue, len, '
              'iteration, membership, abstract content, DER bytes vs the independent writer) are compared')
 RULE = ('a case = one history of up to 40 operations on a SEQUENCE OF / SET OF (with or without component type), a '
+        'SEQUENCE / SET whose OPTIONAL members are themselves SEQUENCE OF / SEQUENCE / SET OF (replaced whole, mutated in place, deep-cloned), a '
         'SEQUENCE / SET with declared components, a field-less SEQUENCE or a CHOICE: mutators (__setitem__ by '
         'index/name/slice, append, extend, setComponentBy{Position,Name,Type}, sort, reverse, clear, reset, clone) freely '
         'interleaved with readers (len, iter, in, __getitem__, getComponentBy*(instantiate=False/True within range), '
@@ -446,6 +450,281 @@ class RecCase(object):
         return ('noop',)
 
 
+# ------------------------------------------------------------------ records with OPTIONAL components of constructed type
+
+NEST_FIELDS = (('a', ('int',), 'req', None),
+               ('e', ('tag', 'I', 'C', 1, ('seqof', INT)), 'opt', None),
+               ('f', ('tag', 'I', 'C', 2, ('seq', (('x', INT, 'req', None), ('y', ('octs',), 'opt', None)))), 'opt', None),
+               ('g', ('tag', 'I', 'C', 3, ('setof', INT)), 'opt', None))
+NESTT = {'seq': ('seq', NEST_FIELDS), 'set': ('set', NEST_FIELDS)}
+NNAMES = ['a', 'e', 'f', 'g']
+
+
+def nest_schema(kind):
+    def ctx(n):
+        return tag.Tag(tag.tagClassContext, tag.tagFormatSimple, n)
+    inner = univ.Sequence(componentType=namedtype.NamedTypes(
+        namedtype.NamedType('x', univ.Integer()), namedtype.OptionalNamedType('y', univ.OctetString())))
+    nts = [namedtype.NamedType('a', univ.Integer()),
+           namedtype.OptionalNamedType('e', univ.SequenceOf(componentType=univ.Integer()).subtype(implicitTag=ctx(1))),
+           namedtype.OptionalNamedType('f', inner.subtype(implicitTag=ctx(2))),
+           namedtype.OptionalNamedType('g', univ.SetOf(componentType=univ.Integer()).subtype(implicitTag=ctx(3)))]
+    return (univ.Sequence if kind == 'seq' else univ.Set)(componentType=namedtype.NamedTypes(*nts))
+
+
+class NestedCase(object):
+    """SEQUENCE / SET whose OPTIONAL members are a SEQUENCE OF, a SEQUENCE and a SET OF: the model is a dict holding
+    lists and a dict; nested members are replaced as a whole and mutated in place through the parent."""
+
+    def __init__(self, kind):
+        self.kind = kind
+        self.obj = nest_schema(kind)
+        self.D = {}
+        self.T = NESTT[kind]
+        self.kf_hit = False
+
+    def read_member(self, nm, c):
+        if nm == 'a':
+            return int(c)
+        if nm in ('e', 'g'):
+            if not c.isValue:
+                raise Mismatch('present-list-member-is-not-a-value', nm)
+            out = [int(x) for x in c]
+            if len(c) != len(out):
+                raise Mismatch('nested-length-differs', '%s: len %d, iteration %r' % (nm, len(c), out))
+            for i in range(len(out)):
+                if int(c[i]) != out[i] or int(c.getComponentByPosition(i, instantiate=False)) != out[i]:
+                    raise Mismatch('nested-position-read-differs', '%s[%d]' % (nm, i))
+            return out
+        out = {'x': int(c['x'])}
+        y = c.getComponentByName('y', default=None, instantiate=False)
+        if y is not None:
+            out['y'] = y.asOctets()
+        return out
+
+    def observe(self, where):
+        obj, D = self.obj, self.D
+        try:
+            want_value = D is not None and 'a' in D
+            if obj.isValue != want_value:
+                raise Mismatch('isValue-differs', '%s: obj %s model %r' % (where, obj.isValue, D))
+            if D is None:
+                return
+            if list(obj) != NNAMES:
+                raise Mismatch('iteration-differs', '%s: %r' % (where, list(obj)))
+            for nm in NNAMES:
+                c = obj.getComponentByName(nm, default=None, instantiate=False)
+                if nm in D:
+                    if c is None:
+                        raise Mismatch('component-lost', '%s: %s model %r' % (where, nm, D))
+                    got = self.read_member(nm, c)
+                    want = D[nm]
+                    if (sorted(got) != sorted(want)) if nm == 'g' else (got != want):
+                        raise Mismatch('abstract-content-differs', '%s: %s = %r model %r' % (where, nm, got, want))
+                elif c is not None:
+                    raise Mismatch('component-appeared', '%s: %s model %r' % (where, nm, D))
+            if want_value:
+                e = der_encoder.encode(obj)
+                # expectation: X.690 DER, except inside the zone of the pinned emptyable-optional finding (a present
+                # and empty OPTIONAL SEQUENCE OF / SET OF is left out by the CER/DER encoders), where the output must
+                # equal the emulation of exactly that deviation; the hit is reported once per history
+                want, used = R.like_pyasn1_used(self.T, D, 'DER', True, 0, {'emptyable-optional'})
+                if used:
+                    self.kf_hit = True
+                if e != want:
+                    raise Mismatch('der-differs', '%s: %s vs %s for %r' % (where, e.hex(), want.hex(), D))
+        except Mismatch:
+            raise
+        except Exception as ex:
+            raise Mismatch('observation-raised:' + type(ex).__name__, '%s: %s (model %r)' % (where, ex, D))
+
+    def build_member(self, rng, nm, v):
+        proto = self.obj.componentType[nm].asn1Object
+        o = proto.clone()
+        if nm in ('e', 'g'):
+            o.clear()
+            how = rng.choice(['append', 'extend', 'setitem-descending', 'setitem-shuffled'])
+            if how == 'append':
+                for x in v:
+                    o.append(x)
+            elif how == 'extend':
+                o.extend(v)
+            else:
+                idxs = list(range(len(v)))
+                if how == 'setitem-descending':
+                    idxs.reverse()
+                else:
+                    rng.shuffle(idxs)
+                for i in idxs:
+                    o[i] = v[i]
+            return o, how
+        o['x'] = v['x']
+        if 'y' in v:
+            o['y'] = v['y']
+        return o, 'fields'
+
+    def gen(self, rng, nm):
+        if nm == 'a':
+            return rng.randint(-3, 300)
+        if nm in ('e', 'g'):
+            return [rng.randint(-2, 40) for _ in range(rng.choice([0, 1, 2, 3, 5]))]
+        v = {'x': rng.randint(0, 9)}
+        if rng.random() < 0.5:
+            v['y'] = bytes(rng.getrandbits(8) for _ in range(rng.randint(0, 2)))
+        return v
+
+    def step(self, rng):
+        D = self.D
+        op = rng.choice(['set-whole', 'set-whole', 'set-a', 'nested-append', 'nested-setitem', 'nested-field', 'nested-sort',
+                         'nested-clear', 'clear', 'reset', 'clone', 'read', 'read', 'read', 'bad-nested', 'bad-name'])
+        if op == 'set-a':
+            v = self.gen(rng, 'a')
+            if rng.random() < 0.5:
+                self.obj['a'] = v
+            else:
+                self.obj.setComponentByPosition(0, v)
+            self.D = dict(D or {})
+            self.D['a'] = v
+            return ('set-a', v)
+        if op == 'set-whole':
+            nm = rng.choice(['e', 'f', 'g'])
+            v = self.gen(rng, nm)
+            o, how = self.build_member(rng, nm, v)
+            r = rng.random()
+            if r < 0.4:
+                self.obj[nm] = o
+            elif r < 0.7:
+                self.obj.setComponentByName(nm, o)
+            else:
+                self.obj.setComponentByPosition(NNAMES.index(nm), o)
+            self.D = dict(D or {})
+            self.D[nm] = list(v) if nm != 'f' else dict(v)
+            return ('set-whole', nm, how, repr(v))
+        present = [n_ for n_ in ('e', 'f', 'g') if D and n_ in D]
+        if op in ('nested-append', 'nested-setitem', 'nested-sort', 'nested-clear'):
+            lists = [n_ for n_ in present if n_ != 'f']
+            if not lists:
+                return ('noop',)
+            nm = rng.choice(lists)
+            inner = self.obj[nm]
+            self.D = dict(D)
+            L = list(D[nm])
+            if op == 'nested-append':
+                x = rng.randint(-2, 40)
+                inner.append(x)
+                L.append(x)
+            elif op == 'nested-setitem':
+                if not L:
+                    return ('noop',)
+                i = rng.randrange(len(L))
+                x = rng.randint(-2, 40)
+                inner[i] = x
+                L[i] = x
+            elif op == 'nested-sort':
+                inner.sort(key=int)
+                L.sort()
+            else:
+                inner.clear()
+                L = []
+            self.D[nm] = L
+            return (op, nm)
+        if op == 'nested-field':
+            if 'f' not in present:
+                return ('noop',)
+            self.D = dict(D)
+            F = dict(D['f'])
+            if rng.random() < 0.5:
+                F['x'] = rng.randint(0, 9)
+                self.obj['f']['x'] = F['x']
+            else:
+                F['y'] = bytes(rng.getrandbits(8) for _ in range(rng.randint(0, 2)))
+                self.obj['f'].setComponentByName('y', F['y'])
+            self.D['f'] = F
+            return ('nested-field',)
+        if op == 'clear':
+            self.obj.clear()
+            self.D = {}
+            return ('clear',)
+        if op == 'reset':
+            self.obj.reset()
+            self.D = None
+            return ('reset',)
+        if op == 'clone':
+            deep = rng.random() < 0.8
+            c = self.obj.clone(cloneValueFlag=deep)
+            if not deep:
+                if c.isValue:
+                    raise Mismatch('clone-without-values-is-a-value', repr(c)[:100])
+                return ('clone-schema',)
+            if rng.random() < 0.6 and present:
+                # a deep clone shares nothing with the original: mutate the clone's nested members
+                for nm in present:
+                    if nm == 'f':
+                        c['f']['x'] = 4242
+                    else:
+                        c[nm].append(4242)
+                self.observe('after mutating nested members of a deep clone (original)')
+                return ('clone-deep-nested-mutated',)
+            self.obj = c
+            return ('clone-deep-continue',)
+        if op == 'read':
+            if D is None:
+                which = rng.choice(['pretty', 'repr'])
+            else:
+                which = rng.choice(['pretty', 'repr', 'values', 'items', 'eq', 'ber', 'cer', 'native', 'get-present', 'len-nested',
+                                    'iter-nested', 'in'])
+            if which == 'pretty':
+                self.obj.prettyPrint()
+            elif which == 'repr':
+                repr(self.obj)
+            elif which == 'values':
+                list(self.obj.values())
+            elif which == 'items':
+                list(self.obj.items())
+            elif which == 'eq':
+                if 'a' in D:
+                    self.obj == self.obj
+            elif which in ('ber', 'cer', 'native'):
+                if 'a' in D:
+                    if which == 'ber':
+                        ber_encoder.encode(self.obj, defMode=rng.random() < 0.5)
+                    elif which == 'cer':
+                        cer_encoder.encode(self.obj)
+                    else:
+                        native_encoder.encode(self.obj)
+            elif which == 'get-present':
+                if present:
+                    nm = rng.choice(present)
+                    c = rng.choice([lambda: self.obj[nm], lambda: self.obj.getComponentByName(nm),
+                                    lambda: self.obj.getComponentByPosition(NNAMES.index(nm)),
+                                    lambda: self.obj.getComponentByName(nm, instantiate=True)])()
+                    got = self.read_member(nm, c)
+                    if (sorted(got) != sorted(D[nm])) if nm == 'g' else (got != D[nm]):
+                        raise Mismatch('read-of-member-differs', '%s: %r model %r' % (nm, got, D[nm]))
+            elif which in ('len-nested', 'iter-nested'):
+                for nm in present:
+                    if nm != 'f':
+                        len(self.obj[nm])
+                        list(self.obj[nm])
+            elif which == 'in':
+                'e' in self.obj
+            return ('read:' + which,)
+        if op == 'bad-nested':
+            lists = [n_ for n_ in present if n_ != 'f']
+            if lists:
+                nm = rng.choice(lists)
+                expect_reject(lambda: self.obj[nm].append('not-a-number'), (ValueError, TypeError))
+            elif 'f' in present:
+                expect_reject(lambda: self.obj['f']['nope'], (KeyError,))
+            else:
+                return ('noop',)
+            return ('bad-nested',)
+        if op == 'bad-name':
+            expect_reject(lambda: self.obj.setComponentByName('nope', 1), (KeyError,))
+            return ('bad-name',)
+        return ('noop',)
+
+
 # ------------------------------------------------------------------ field-less (dynamic) records
 
 class DynCase(object):
@@ -729,12 +1008,14 @@ def make_case(kind):
         return ListCase(kind.split('-')[0], False)
     if kind in ('seq', 'set'):
         return RecCase(kind)
+    if kind in ('nested-seq', 'nested-set'):
+        return NestedCase(kind.split('-')[1])
     if kind == 'dyn':
         return DynCase()
     return ChoiceCase()
 
 
-KINDS = ['seqof', 'setof', 'seqof-untyped', 'setof-untyped', 'seq', 'set', 'dyn', 'choice']
+KINDS = ['seqof', 'setof', 'seqof-untyped', 'setof-untyped', 'seq', 'set', 'dyn', 'choice', 'nested-seq', 'nested-set']
 
 
 def run_history(res, kind, hseed, nsteps):
@@ -779,6 +1060,9 @@ def run_history(res, kind, hseed, nsteps):
         res.case(U.case_hash(case), True)
         res.witness(kind.split('-')[0] + ':' + m.symptom, feats, case, m.detail)
         return
+    if getattr(c, 'kf_hit', False):
+        res.witness('nested:emptyable-optional', feats | {'emu:emptyable-optional'}, case,
+                    'a present and empty OPTIONAL SEQUENCE OF / SET OF member was left out of the DER encoding')
     for r in risky:
         res.see('risky-pair:' + r)
     res.case(U.case_hash(case), bool(risky))
